@@ -719,6 +719,8 @@ class Executor:
             return self.identical(b, a, st)
         if isinstance(a, SNone) or isinstance(b, SNone):
             return TRUE if (isinstance(a, SNone) and isinstance(b, SNone)) else FALSE
+        if isinstance(a, Opaque) or isinstance(b, Opaque):
+            return fresh_bool("is.opaque")
         if isinstance(a, SBool) and isinstance(b, SBool):
             return a.t == b.t
         if isinstance(a, SBool) or isinstance(b, SBool):
@@ -832,6 +834,8 @@ class Executor:
         if isinstance(v, Ref):
             o = st.obj(v)
             if isinstance(o, HList) and o.sym is not None:
+                if o.prefix is not None:
+                    raise Unsupported("list with concrete prefix and symbolic tail used as a sequence")
                 return o.sym
         return None
 
